@@ -463,6 +463,19 @@ impl Mon {
         self.cfg.light > 0.0
     }
 
+    /// Light lanes: true for the one shard of the lane that owns the `i`-th case of an unthinned "shape" corpus
+    /// (cases whose point is the memory shape, which the interpreter lanes must all see once), during the first
+    /// pass over the workload only. Always false in the native lanes, which submit such cases through `case`.
+    pub fn light_owns(&mut self, i: u64, op: &str) -> bool {
+        // when the shards of the lane own disjoint widths, the caller's width already belongs to this shard alone
+        let by_width = self.cfg.widths.as_ref().is_some_and(|w| w.len() >= 2 * (self.cfg.nshards as usize).max(1));
+        self.cfg.light > 0.0
+            && self.light_passes == 0
+            && (by_width || i % self.cfg.nshards.max(1) == self.cfg.shard)
+            && self.op_enabled(op)
+            && !self.time_up()
+    }
+
     /// Number of random iterations for a base budget under the lane's scale.
     pub fn iters(&self, base: usize) -> usize {
         ((base as f64 * self.cfg.scale).ceil() as usize).max(1)
